@@ -175,7 +175,15 @@ def run_pow(facts):
         if len(back) != 1:
             return dom, body, None, None, "one turn of eval::pow's loop returns to its head on %d path(s)" % len(back)
         b = back[0]
-        if dom.decide(b.store, T("is_zero", CNT)) is not False:
+        nonneg0 = isinstance(c0, T) and c0.op == "abs"
+
+        def cnt_nonzero(st_):
+            # the counter was tested non-zero: `!is_zero()`, or `is_positive()` (a magnitude that is not positive is zero)
+            return dom.decide(st_, T("is_zero", CNT)) is False or dom.decide(st_, T("is_positive", CNT)) is True
+
+        def cnt_zero(st_):
+            return dom.decide(st_, T("is_zero", CNT)) is True or (nonneg0 and dom.decide(st_, T("is_positive", CNT)) is False)
+        if not cnt_nonzero(b.store):
             return dom, body, None, None, "the loop of eval::pow continues without having tested its counter non-zero"
         acc1 = _rat(it.read_ref(b.store, Ref(frame, A)))
         c1 = unwrap(it.read_ref(b.store, Ref(frame, C)))
@@ -202,7 +210,7 @@ def run_pow(facts):
         for t in turn:
             if t.kind == "stop":
                 continue
-            if dom.decide(t.store, T("is_zero", CNT)) is not True:
+            if not cnt_zero(t.store):
                 return dom, body, None, None, "the loop of eval::pow is left on a path that did not test its counter zero"
         closed = T("*", acc0, T("pow", X, T("abs", c0)))
         st2 = it.write_ref(st, Ref(frame, A), Agg("adt", "rational::Rational", 0, "Rational", (closed,)))
